@@ -157,6 +157,14 @@ var trUnits = []trUnit{
 		constPtr:  []string{"ltx", "re"},
 		funcs: []string{"readFile.lContextProcessMaxCount", "readFile.lContextProcessBefore", "readFile.lContextNotMatched",
 			"readFile.filterLineWithLContext", "readFile.filterWithLContext"}},
+	{ns: "Client", pkgDir: "internal/clients/handlers", panics: true,
+		structs: map[string][]string{"baseHandler": {"receiveBuf"}},
+		record: map[string]trRecord{
+			"dlog.Client.Raw": {field: "printed", owner: "baseHandler", types: []string{"GoString"}},
+			"h.SendMessage":   {field: "sent", owner: "baseHandler", types: []string{"GoString"}},
+			"h.Shutdown":      {field: "shutdowns", owner: "baseHandler", types: []string{"Unit"}}},
+		bufVars: []string{"h.receiveBuf"},
+		funcs:   []string{"baseHandler.handleHiddenMessage", "baseHandler.handleMessage", "baseHandler.Write"}},
 	{ns: "Brush", pkgDir: "internal/color/brush", panics: true,
 		structs:     map[string][]string{},
 		appendCalls: map[string]int{"color.PaintWithAttr": 1},
@@ -871,6 +879,10 @@ func (f *trFn) stmt1(ind string, s ast.Stmt, next cont) string {
 		f.pop()
 		return out
 	case *ast.GoStmt:
+		if _, isRec := f.p.unit.record[src(st.Call.Fun)]; isRec {
+			// what the goroutine is started with is kept; what it does is outside the translated state
+			return f.stmt1(ind, &ast.ExprStmt{X: st.Call}, next)
+		}
 		if len(f.p.unit.skip) > 0 {
 			return next(ind) // a goroutine started here is an effect outside the translated state
 		}
@@ -879,7 +891,7 @@ func (f *trFn) stmt1(ind string, s ast.Stmt, next cont) string {
 		if !ok {
 			trFail(st, "expression statement is not a call")
 		}
-		if isLogging(call) || contains(f.p.unit.skip, src(call.Fun)) {
+		if _, isRec := f.p.unit.record[src(call.Fun)]; !isRec && (isLogging(call) || contains(f.p.unit.skip, src(call.Fun))) {
 			return next(ind)
 		}
 		if strings.HasPrefix(src(call.Fun), "pool.Recycle") && len(call.Args) == 1 {
@@ -894,8 +906,8 @@ func (f *trFn) stmt1(ind string, s ast.Stmt, next cont) string {
 		if c, ef := f.effectOf(call); ef != nil {
 			return f.effectBind(ind, c, ef, nil, false, next)
 		}
-		if id, what := f.bufWrite(call); id != nil {
-			return fmt.Sprintf("%slet %s := %s ++ %s\n", ind, f.v(id.Name), f.v(id.Name), what) + next(ind)
+		if target, val := f.bufWrite(call); target != nil {
+			return f.assignTo(ind, target, val, next)
 		}
 		if r, ok := f.p.unit.record[src(call.Fun)]; ok {
 			var vals []string
@@ -912,7 +924,7 @@ func (f *trFn) stmt1(ind string, s ast.Stmt, next cont) string {
 			}
 			recv := f.v(f.recv)
 			tuple := strings.Join(vals, ", ")
-			if len(vals) > 1 {
+			if len(vals) != 1 {
 				tuple = "(" + tuple + ")"
 			}
 			return fmt.Sprintf("%slet %s := { %s with %s := %s.%s ++ [%s] }\n", ind, recv, recv, r.field, recv, r.field, tuple) + next(ind)
@@ -1165,20 +1177,24 @@ func (f *trFn) byteRead(e ast.Expr) *ast.Ident {
 }
 
 // bufWrite: `v.WriteByte(b)` / `v.WriteString(s)` on one of the unit's buffer variables: the variable and what is appended
-func (f *trFn) bufWrite(call *ast.CallExpr) (*ast.Ident, string) {
+func (f *trFn) bufWrite(call *ast.CallExpr) (ast.Expr, string) {
 	sel, ok := call.Fun.(*ast.SelectorExpr)
-	if !ok || len(call.Args) != 1 {
-		return nil, ""
-	}
-	id, ok := sel.X.(*ast.Ident)
-	if !ok || !contains(f.p.unit.bufVars, id.Name) {
+	if !ok || !contains(f.p.unit.bufVars, src(sel.X)) {
 		return nil, ""
 	}
 	switch sel.Sel.Name {
 	case "WriteByte":
-		return id, "[" + f.byteExpr(call.Args[0]) + "]"
+		if len(call.Args) == 1 {
+			return sel.X, f.expr(sel.X) + " ++ [" + f.byteExpr(call.Args[0]) + "]"
+		}
 	case "WriteString":
-		return id, f.expr(call.Args[0])
+		if len(call.Args) == 1 {
+			return sel.X, f.expr(sel.X) + " ++ " + f.expr(call.Args[0])
+		}
+	case "Reset":
+		if len(call.Args) == 0 {
+			return sel.X, "([] : GoString)"
+		}
 	}
 	return nil, ""
 }
@@ -1970,8 +1986,8 @@ func (f *trFn) assignedOuter(body []ast.Stmt) []string {
 			if r := f.byteRead(s); r != nil {
 				mark(r)
 			}
-			if id, _ := f.bufWrite(s); id != nil {
-				mark(id)
+			if target, _ := f.bufWrite(s); target != nil {
+				mark(target)
 			}
 			if f.isTranslatedMethodCall(s) {
 				sel := s.Fun.(*ast.SelectorExpr)
@@ -2292,6 +2308,9 @@ func (f *trFn) expr(e ast.Expr) string {
 					if text, ok := crossConst(dir, v.Sel.Name); ok {
 						return f.p.strLit(text)
 					}
+					if num, ok := crossInt(dir, v.Sel.Name); ok {
+						return num
+					}
 				}
 			}
 		}
@@ -2405,10 +2424,13 @@ func (f *trFn) expr(e ast.Expr) string {
 					}
 				}
 			case "Len":
-				if id, ok := sel.X.(*ast.Ident); ok && len(v.Args) == 0 && contains(f.p.unit.bufVars, id.Name) {
+				if len(v.Args) == 0 && contains(f.p.unit.bufVars, src(sel.X)) {
 					return "(GoLen.len " + f.expr(sel.X) + ")"
 				}
 			case "Bytes", "String":
+				if len(v.Args) == 0 && contains(f.p.unit.bufVars, src(sel.X)) {
+					return f.expr(sel.X)
+				}
 				if len(v.Args) == 0 {
 					if id, ok := sel.X.(*ast.Ident); ok {
 						if _, isVar := f.lookup(id.Name); isVar {
@@ -2970,6 +2992,40 @@ func crossConst(dir, name string) (string, bool) {
 					if n.Name == name && i < len(vs.Values) {
 						if text, ok := constStr(eval(vs.Values[i], nil)); ok {
 							return text, true
+						}
+					}
+				}
+			}
+		}
+	}
+	return "", false
+}
+
+// crossInt: an integer (or character) constant of another package of the repository
+func crossInt(dir, name string) (string, bool) {
+	ents, err := os.ReadDir(filepath.Join(repo, dir))
+	if err != nil {
+		return "", false
+	}
+	for _, e := range ents {
+		if !strings.HasSuffix(e.Name(), ".go") || strings.HasSuffix(e.Name(), "_test.go") {
+			continue
+		}
+		f, err := parser.ParseFile(fset, filepath.Join(repo, dir, e.Name()), nil, 0)
+		if err != nil {
+			continue
+		}
+		for _, d := range f.Decls {
+			gd, ok := d.(*ast.GenDecl)
+			if !ok || gd.Tok != token.CONST {
+				continue
+			}
+			for _, sp := range gd.Specs {
+				vs := sp.(*ast.ValueSpec)
+				for i, n := range vs.Names {
+					if n.Name == name && i < len(vs.Values) {
+						if c := eval(vs.Values[i], nil); c != nil && c.Kind() == constant.Int {
+							return c.ExactString(), true
 						}
 					}
 				}
